@@ -608,6 +608,22 @@ func ruleC17Cartesian(w *World, r *Report, cart, complexF, trivial, isR *ssa.Fun
 			}
 		}
 	})
+	// … or stored into its own slot of a slice made with one slot per ranged element
+	allInstrs(cart, func(i ssa.Instruction) {
+		st, ok := i.(*ssa.Store)
+		if !ok {
+			return
+		}
+		ia, ok := st.Addr.(*ssa.IndexAddr)
+		if !ok || !w.rangeIndexIntoMake(ia.Index, ia.X) {
+			return
+		}
+		if ld, ok := st.Val.(*ssa.UnOp); ok && ld.Op == token.MUL {
+			if _, isLit := allocs[ld.X]; isLit {
+				allocs[ld.X]++
+			}
+		}
+	})
 	for al, k := range allocs {
 		r.check(k == 1, "R17.2", name, "each built rule is appended exactly once", w.Pos(al.Pos()), "1 append", fmt.Sprintf("rule literal appended %d times", k))
 	}
